@@ -3,6 +3,14 @@
 // Contracts for package label (comment-only; read by /verif/govc, ignored by the compiler).
 package label
 
+// A label is an identity (C04: the runner and the project must agree on which target a string
+// names; C12: labels are stable). Its fields are written only where a label is made (Parse, New,
+// UnmarshalText, RelativeTo) and at the three places that deliberately derive another label from a
+// fresh one (label(), the module loader, the command line's nearest-default search): in particular a
+// lookup such as Project.LoadTarget never rewrites the label it parsed.
+//@ struct label.Label
+//@   stable Kind, Project, Package, Name writers label.Parse, label.New, (*label.Label).UnmarshalText, (*label.Label).RelativeTo, (*dawn.Project).builtin_label, (*dawn.module).loadModule, main.labelOrNearestDefault
+
 // String is a function of the label's four fields (assumed: callers rely on two calls agreeing).
 //@ specfn lstr4(string, string, string, string) string
 //@ smt <<<
